@@ -213,6 +213,12 @@ func RunKV(sc *KVScenario, log *EventLog, workDir string) error {
 	expapi.Register(expapi.WithServeMux(mux))
 	r.srv = httptest.NewServer(mux)
 	defer r.srv.Close()
+	type heldGet struct {
+		k   int
+		b   []byte
+		sum [32]byte
+	}
+	var held []heldGet // results of earlier Gets the caller still holds: nothing the store does later may change them
 	lastFileOf := map[int]string{} // key -> file whose content changed at its last Set (found by directory diff)
 	lastVal := map[int]int{}
 	cleanOf := map[int][]byte{}      // key -> the bytes of that file as the store wrote them
@@ -295,6 +301,13 @@ func RunKV(sc *KVScenario, log *EventLog, workDir string) error {
 				if err2 == nil {
 					id2, _ := r.identify(b2)
 					ev["alias"] = b2i(id2 != ev["rv"].(int))
+					held = append(held, heldGet{op.K, b2, sha256.Sum256(b2)})
+				}
+				// what earlier Gets returned is still what it was
+				for _, h := range held {
+					if sha256.Sum256(h.b) != h.sum {
+						ev["alias"] = 1
+					}
 				}
 			} else {
 				ev["errs"] = err.Error()
@@ -471,6 +484,55 @@ func RunKV(sc *KVScenario, log *EventLog, workDir string) error {
 			if op.Op == "api_get" && resp.StatusCode == 200 {
 				ev["rv"], ev["torn"] = r.identify(body)
 			}
+		case "set_slow":
+			// the write is slower than the operation timeout of the store: Set gives up, the caller reuses its buffer,
+			// the write goes on in the background (step hooks of fscache hold it at op.How)
+			if !hooksAvailable || r.dir == "" {
+				ev["errs"] = "no hooks"
+				break
+			}
+			opts := []fscache.Option{fscache.WithBaseDir(r.dir), fscache.WithTimeout(30 * time.Millisecond)}
+			if sc.Backend == "fsenc" {
+				opts = append(opts, fscache.WithEncryption(encKey))
+			}
+			c2, err := fscache.Open("kv", opts...)
+			if err != nil {
+				ev["errs"] = err.Error()
+				break
+			}
+			point := op.How
+			if point == "" {
+				point = "set:begin"
+			}
+			key := string(r.keys[op.K])
+			released, finished := make(chan struct{}), make(chan struct{}, 4)
+			setFsHook(func(p, k string) {
+				if k != key {
+					return
+				}
+				if p == point {
+					<-released
+				}
+				if p == "set:renamed" {
+					finished <- struct{}{}
+				}
+			})
+			buf := append([]byte(nil), r.vals[op.V]...)
+			err = c2.Set(key, buf)
+			ev["ok"] = b2i(err == nil)
+			if err != nil {
+				ev["errs"] = err.Error()
+			}
+			for j := range buf {
+				buf[j] ^= 0xff
+			}
+			close(released)
+			select {
+			case <-finished:
+			case <-time.After(2 * time.Second):
+			}
+			time.Sleep(20 * time.Millisecond)
+			setFsHook(nil)
 		case "set_cut", "set_kill":
 			// the write happens in a child process that is cut short (file size limit) or killed
 			mode := "cut"
